@@ -11,15 +11,23 @@ vars == << l, bad, done >>
 
 TraitOf(j) == [code |-> j.code, pay |-> j.pay, opts |-> j.opts]
 
+\* getters on a stored code that is not what its byte decodes to (Request(UnKnown), Response(UnKnown), a
+\* hand-built Reserved value with a named code's byte): the unknown marker, or what the byte says - the
+\* property asks nothing more of these; both generic views must hand out the stored value itself
 JudgeViews(e) ==
   LET m == MsgOf(e.st)
-      exp == [AllViews(m) EXCEPT !.method = GetMethodF(m, e.cform), !.status = GetStatusF(m, e.cform)] IN
+      av == AllViews(m)
+      okNames == e.views.method \in { av.method, GetMethodF(m, e.cform) } /\ e.views.status \in { av.status, GetStatusF(m, e.cform) } IN
   IF e.panicked THEN {"C19"}
-  ELSE IF e.views = exp /\ TraitOf(e.t02) = TraitView(m) /\ TraitOf(e.t03) = TraitView(m)
+  ELSE IF [e.views EXCEPT !.method = av.method, !.status = av.status] = av /\ okNames
+          /\ TraitOf(e.t02) = TraitView(m) /\ TraitOf(e.t03) = TraitView(m)
           /\ e.cform \in CodeForms /\ e.t02.cform = e.cform /\ e.t03.cform = e.cform THEN {} ELSE {"C19"}
 
+\* nothing is required of set_method(UnKnown) / set_status(UnKnown) beyond leaving everything but the code alone
 JudgeSet(e) ==
   IF e.panicked THEN {"C19"}
+  ELSE IF e.f \in { "set_method", "set_status" } /\ e.a.name = "UnKnown"
+  THEN (IF [MsgOf(e.post) EXCEPT !.code = 0] = [MsgOf(e.pre) EXCEPT !.code = 0] /\ e.post.tkl = Len(e.pre.tok) THEN {} ELSE {"C19"})
   ELSE IF MsgOf(e.post) = ApplyV(MsgOf(e.pre), e) /\ e.post.tkl = Len(e.pre.tok)
           /\ e.postform = FormAfter(e.preform, e) THEN {} ELSE {"C19"}
 
